@@ -64,6 +64,8 @@ pub struct M<'tcx> {
     pub conds: Vec<(Tid, i128)>,
     pub events: Vec<Event>,
     pub depth: usize,
+    pub fmt_ty: Option<Ty<'tcx>>,
+    pub visited: std::collections::BTreeSet<String>,
 }
 
 pub fn tyenv<'tcx>() -> TypingEnv<'tcx> {
@@ -113,7 +115,7 @@ pub fn peel_refs<'tcx>(mut t: Ty<'tcx>) -> Ty<'tcx> {
 
 impl<'tcx> M<'tcx> {
     pub fn new(tcx: TyCtxt<'tcx>, cfg: Config) -> Self {
-        M { tcx, terms: Terms::default(), allocs: vec![], alloc_names: vec![], steps: 0, cfg, script: vec![], pos: 0, conds: vec![], events: vec![], depth: 0 }
+        M { tcx, terms: Terms::default(), allocs: vec![], alloc_names: vec![], steps: 0, cfg, script: vec![], pos: 0, conds: vec![], events: vec![], depth: 0, fmt_ty: None, visited: Default::default() }
     }
 
     pub fn reset_path(&mut self) {
@@ -772,6 +774,13 @@ impl<'tcx> M<'tcx> {
                 Ok(V::Agg((0..n).map(|_| v.clone()).collect()))
             }
             Rvalue::Ref(_, _, p) | Rvalue::RawPtr(_, p) => {
+                // reborrow of a modelled fat reference (&str literal, &dyn Trait): the reference value itself
+                if p.projection.len() == 1 && matches!(p.projection[0], ProjectionElem::Deref) {
+                    let lv = self.allocs[f.locals[p.local.as_usize()]].clone();
+                    if matches!(lv, V::Str(_) | V::Dyn(..)) {
+                        return Ok(lv);
+                    }
+                }
                 let (ptr, _) = self.place(f, p)?;
                 Ok(V::Ptr(ptr))
             }
@@ -909,7 +918,7 @@ impl<'tcx> M<'tcx> {
                                 let stride = leaf_count(tcx, *e);
                                 Ok(V::Ptr(Ptr { alloc: p.alloc, path: p.path, off: p.off, sl: Some((stride, arr_len(tcx, *n))) }))
                             }
-                            (_, ty::Dynamic(..), V::Ptr(p)) => Ok(V::Ptr(p)),
+                            (_, ty::Dynamic(..), V::Ptr(p)) => Ok(V::Dyn(p, fi)),
                             _ => unsup(format!("unsize {} -> {}", from, to)),
                         }
                     }
